@@ -169,7 +169,7 @@ func TestC20Child(t *testing.T) {
 	os.WriteFile(filepath.Join(dir, "result.json"), out, 0o644)
 }
 
-const c20HangAfter = 90 * time.Second
+const c20HangAfter = 40 * time.Second
 
 func c20Check(c c20Case, r *h.Rec) error {
 	dir, err := os.MkdirTemp(scratch(), "c20-")
